@@ -134,7 +134,7 @@ where
         .refresh_order(opts.refresh_order)
         .reset_pin(SpiRst(wp))
         .init(&mut NoDelay);
-    assert!(sw.ops_after_fail == 0, "[C12] no pin or SPI operation after the failing one");
+    crate::indep! { assert!(sw.ops_after_fail == 0, "[C12] no pin or SPI operation after the failing one"); }
     assert!(sw.spi_while_rst_low == 0 && sw.spi_before_rst == 0, "[C17] nothing on the SPI bus before the reset pin is high again");
     match r {
         Ok(mut d) => {
@@ -178,7 +178,7 @@ where
         .refresh_order(opts.refresh_order)
         .init(&mut WClock(wp));
     ww.finish();
-    assert!(ww.world.ops_after_fail == 0, "[C12] no pin operation after the failing one");
+    crate::indep! { assert!(ww.world.ops_after_fail == 0, "[C12] no pin operation after the failing one"); }
     match r {
         Ok(_d) => {
             assert!(!ww.world.failed, "[C12] a failed operation must be reported");
